@@ -126,14 +126,14 @@ func genC19(kind string) func(r *core.Rng) any {
 				if r.Chance(0.4) {
 					put("fill-rule", core.PickS(r, []string{"evenodd", "nonzero", "nonzero"}))
 				}
-				if r.Chance(0.3) {
-					put("stroke-linejoin", core.PickS(r, []string{"miter", "bevel", "round"}))
+				if r.Chance(0.5) {
+					put("stroke-linejoin", core.PickS(r, []string{"miter", "miter", "bevel", "round"}))
 				}
 				if r.Chance(0.3) {
 					put("stroke-linecap", core.PickS(r, []string{"butt", "square", "round"}))
 				}
-				if r.Chance(0.2) {
-					put("stroke-miterlimit", core.PickS(r, []string{"1.5", "4", "10"}))
+				if r.Chance(0.4) {
+					put("stroke-miterlimit", core.PickS(r, []string{"1.5", "4", "10", "10"}))
 				}
 			}
 			if useCSS && r.Chance(0.6) {
@@ -188,9 +188,21 @@ func genC19(kind string) func(r *core.Rng) any {
 			sz := math.Min(vw, vh) * r.Range(0.1, 0.3)
 			tag := core.PickS(r, []string{"rect", "rect", "circle", "ellipse", "line", "polyline", "polygon", "path", "path"})
 			if rich && r.Chance(0.5) {
-				tag = core.PickS(r, []string{"star", "rings"})
+				tag = core.PickS(r, []string{"star", "rings", "spike", "spike"})
 			}
 			switch tag {
+			case "spike": // an open polyline with a tip of 8-40 degrees: mitre ratios from 2.9 to 14
+				tag = "polyline"
+				half := r.Range(4, 20) * math.Pi / 180
+				dir := r.Range(0, 2*math.Pi)
+				l := sz * 1.5
+				tip := Pt{cx + l/2*math.Cos(dir), cy + l/2*math.Sin(dir)}
+				a := Pt{tip.X - l*math.Cos(dir-half), tip.Y - l*math.Sin(dir-half)}
+				b := Pt{tip.X - l*math.Cos(dir+half), tip.Y - l*math.Sin(dir+half)}
+				attrs = append(attrs, fmt.Sprintf(`points="%s,%s %s,%s %s,%s" fill="none"`, c19Num(a.X), c19Num(a.Y), c19Num(tip.X), c19Num(tip.Y), c19Num(b.X), c19Num(b.Y)))
+				if r.Chance(0.7) {
+					attrs = append(attrs, fmt.Sprintf(`stroke="%s" stroke-width="%s"`, core.PickS(r, c19Colors), c19Num(r.Range(0.5, 2))))
+				}
 			case "star": // pentagram: the inner pentagon has winding number 2
 				tag = "polygon"
 				var pts []string
@@ -803,6 +815,25 @@ func c19Check(ci any, o *core.Obs) {
 					off = -off
 				}
 				samples = append(samples, p.Add(n.Mul(off)))
+			}
+			// beyond the corners of stroked lines, along the outward bisector: where the join type and the
+			// miter limit decide
+			if pr.line != nil {
+				nv := len(poly.V)
+				for i := 1; i+1 < nv && i < 40; i++ {
+					u, w := poly.V[i].P.Sub(poly.V[i-1].P), poly.V[i+1].P.Sub(poly.V[i].P)
+					if u.Len() == 0 || w.Len() == 0 {
+						continue
+					}
+					b := u.Mul(1 / u.Len()).Sub(w.Mul(1 / w.Len()))
+					if b.Len() < 0.3 {
+						continue // nearly straight
+					}
+					b = b.Mul(1 / b.Len())
+					for _, d := range []float64{1.3, 2, 3, 5, 8} {
+						samples = append(samples, poly.V[i].P.Add(b.Mul(pr.hw*d*r.Range(0.9, 1.1))))
+					}
+				}
 			}
 		}
 	}
